@@ -24,7 +24,8 @@ MIN_COUNTERS = {'ops_compared': 1000, 'invariant_evals': 1000,
                 'score_histories': 5, 'score_failed_adds': 20, 'score_adds_of_a_reused_list': 100, 'atexit_histories': 3, 'atexit_inrun_adds': 3, 'clock_histories': 40,
                 'clock_wakeups_compared': 100, 'nrt_clock_histories': 300,
                 'clock_histories_moved_after_self_reschedule': 20,
-                'score_identical_bundles': 20, 'ppar_histories': 1500}
+                'score_identical_bundles': 20, 'ppar_histories': 1500,
+                'ppar_histories_two_live_streams_of_one_pattern': 300}
 
 
 def plan(tier, seed):
@@ -565,10 +566,25 @@ def run_ppar(spec, acc):
                 exp.append((c, t))
             t += d
         got, t, guard = [], 0.0, 0
+        # every third case: a second stream of the SAME pattern object is alive
+        # and stepped in between (each embedding has a queue of its own)
+        two = i % 3 == 0
+        got2, t2, live2 = [], 0.0, two
+        lead = rng.randint(0, 3)
         try:
-            s = stm.stream(build(tree))
+            pat = build(tree)
+            s = stm.stream(pat)
+            s2 = stm.stream(pat) if two else None
             while guard < 400:
                 guard += 1
+                if live2 and guard > lead:
+                    try:
+                        e2 = s2.next(evt.event())
+                        if 'id' in e2:
+                            got2.append((e2['id'], t2))
+                        t2 += float(e2['delta'])
+                    except stm.StopStream:
+                        live2 = False
                 e = s.next(evt.event())
                 if 'id' in e:
                     got.append((e['id'], t))
@@ -579,6 +595,21 @@ def run_ppar(spec, acc):
             acc.violation(f'C09/ppar-raises/{type(e).__name__}',
                           {'case': i, 'tree': tree, 'tb': short_tb(e)})
             continue
+        if two:
+            try:
+                while live2 and guard < 900:
+                    guard += 1
+                    e2 = s2.next(evt.event())
+                    if 'id' in e2:
+                        got2.append((e2['id'], t2))
+                    t2 += float(e2['delta'])
+            except stm.StopStream:
+                pass
+            acc.count('ppar_histories_two_live_streams_of_one_pattern')
+            if got2 != exp and got == exp:
+                acc.violation('C09/ppar/second-live-stream-of-the-same-pattern-differs',
+                              {'case': i, 'tree': tree, 'expected': exp[:40], 'got': got2[:40]})
+                continue
         acc.count('ppar_histories')
         acc.count('ppar_events_compared', len(exp))
         ties = len(exp) - len({t for _, t in exp})
